@@ -151,9 +151,9 @@ static str m_substr(const str& t, int i, int n)  // documented: from i (negative
 	int len = (int)t.size();
 	if (i < 0) i += len;
 	if (i > len) i = len;
-	int j = i + n;
+	long long j = (long long)i + n;
 	if (j > len) j = len;
-	return t.substr(i, j - i);
+	return t.substr(i, (size_t)(j - i));
 }
 
 static int sgn(int x) { return x < 0 ? -1 : x > 0 ? 1 : 0; }
@@ -412,7 +412,9 @@ void Hist::plain_step()
 		int p = r.below(K), Lp = len(p), w = r.below(4);
 		if (w == 0) { int i = r.range(0, Lp), j = r.range(i, Lp); before("substring", sa + vf::fmt(" = S%d.substring(%d,%d)", p, i, j)); str m = M[p].substr(i, j - i); *S[a] = S[p]->substring(i, j); M[a] = m; }
 		else if (w == 1) { int i = r.range(0, Lp); before("substring1", sa + vf::fmt(" = S%d.substring(%d)", p, i)); str m = M[p].substr(i); *S[a] = S[p]->substring(i); M[a] = m; }
-		else if (w == 2) { int i = r.range(-Lp, Lp), n = r.range(0, Lp + 2); before("substr", sa + vf::fmt(" = S%d.substr(%d,%d)", p, i, n)); str m = m_substr(M[p], i, n); *S[a] = S[p]->substr(i, n); M[a] = m; }
+		else if (w == 2) { int i = r.range(-Lp, Lp), n = r.range(0, Lp + 2);
+			// "at most n chars": counts far beyond the length (up to INT_MAX, the natural "to the end") are in range
+			if (r.below(8) == 0) { static const int BIG[] = {INT_MAX, INT_MAX - 1, INT_MAX / 2 + 1, 1 << 30, 1000000}; n = BIG[r.below(5)]; } before("substr", sa + vf::fmt(" = S%d.substr(%d,%d)", p, i, n)); str m = m_substr(M[p], i, n); *S[a] = S[p]->substr(i, n); M[a] = m; }
 		else { int i = r.range(-Lp, Lp); before("substr1", sa + vf::fmt(" = S%d.substr(%d)", p, i)); str m = m_substr(M[p], i, Lp); *S[a] = S[p]->substr(i); M[a] = m; }
 		after(a);
 		break;
